@@ -531,9 +531,26 @@ func drawChain(t *rapid.T) (chain.Case, []val.KV) {
 			}
 			alt = append(alt, e)
 		}
+		if rapid.IntRange(0, 14).Draw(t, "huge") == 0 {
+			// one unusually large (but legal) check: a list argument of tens of thousands of elements under a
+			// quantifier. Alone it passes; it must pass just the same while other checks run
+			n := rapid.SampledFrom([]int{1000, 34000, 40000}).Draw(t, "hugen")
+			big := val.V{K: "list"}
+			for i := 0; i < n; i++ {
+				big.L = append(big.L, val.Int(int64(i%5)))
+			}
+			cs.Inv.Args = append(cs.Inv.Args, val.KV{K: "big", V: big})
+			alt = append(alt, val.KV{K: "big", V: big})
+			zero := val.Int(0)
+			q := pol.Stmt{Op: "all", Sel: sel.Sel{{Kind: "field", Name: "big"}}, Sub: []pol.Stmt{{Op: ">=", Sel: sel.Sel{{Kind: "id"}}, Lit: &zero}}}
+			li := rapid.IntRange(0, len(cs.Links)-1).Draw(t, "hugelink")
+			cs.Links[li].Pol = append(append(pol.Policy{}, cs.Links[li].Pol...), q)
+			cs.Links[li].Decoded = false
+			cs.Inv.Decoded = false
+		}
 		data := val.V{K: "map", M: cs.Inv.Args}
 		for i := range cs.Links {
-			if rapid.Bool().Draw(t, "richpol") {
+			if rapid.Bool().Draw(t, "richpol") && len(cs.Inv.Args) < 12 {
 				cs.Links[i].Pol = pol.Gen(t, data, pol.GenCfg{Depth: 2, MaxStmt: 3, SelCfg: sel.GenCfg{MaxSegs: 3}}, fmt.Sprintf("rp%d", i))
 				cs.Links[i].PolIPLD = true
 			}
